@@ -52,9 +52,15 @@ def gate_to_json(gate: Any, params: Sequence[float] = ()) -> Any:
     """JSON recipe of a gate. Blocks are written with their parameters set."""
     if isinstance(gate, CircuitGate):
         sub = gate._circuit.copy()
+        stored = [float(x) for x in sub.params]
         if len(params) == sub.num_params:
             sub.set_params(list(params))
-        return {'block': circ_to_json(sub)}
+        j = {'block': circ_to_json(sub)}
+        if len(params) == len(stored) and len(stored) and not np.allclose(stored, list(params)):
+            # the operation's parameters differ from the ones stored inside
+            # the gate (a block re-parameterised after it was formed)
+            j['stored_params'] = stored
+        return j
     if isinstance(gate, BarrierPlaceholder):
         return {'barrier': gate.num_qudits}
     if isinstance(gate, MeasurementPlaceholder):
@@ -85,7 +91,10 @@ def gate_from_json(j: Any) -> Any:
     if isinstance(j, str):
         return getattr(_gates, j)()
     if 'block' in j:
-        return CircuitGate(circ_from_json(j['block']), True)
+        sub = circ_from_json(j['block'])
+        if 'stored_params' in j:
+            sub.set_params(list(j['stored_params']))
+        return CircuitGate(sub, True)
     if 'barrier' in j:
         return BarrierPlaceholder(int(j['barrier']))
     if 'measure' in j:
@@ -130,10 +139,21 @@ def circ_from_json(j: dict[str, Any]) -> Circuit:
     return c
 
 
+def _semantic(x: Any) -> Any:
+    """The recipe without the parameters stored inside block gates: they are
+    private to the gate (the operation's parameters say what the block is)
+    and are not stable under pickling, which merges equal gates."""
+    if isinstance(x, dict):
+        return {k: _semantic(v) for k, v in x.items() if k != 'stored_params'}
+    if isinstance(x, (list, tuple)):
+        return [_semantic(v) for v in x]
+    return x
+
+
 def fingerprint(x: Any) -> str:
     if isinstance(x, Circuit):
         x = circ_to_json(x)
-    s = json.dumps(x, sort_keys=True)
+    s = json.dumps(_semantic(x), sort_keys=True)
     return hashlib.sha1(s.encode()).hexdigest()[:16]
 
 
